@@ -72,7 +72,9 @@ MODELS = {
     'emd': dict(kind='cnd', params=[('period', 20, P(3, 40)), ('fraction', 0.1, F(0.1, 0.25, 0.5))],
                 fields=['upperband', 'middleband', 'lowerband'], minlen=lambda kw: 3, lean_extra=lambda kw: emd_consts(kw['period'], 0.5), nmax=110),
     # on a constant series the float stages differ from the price by ulps of either sign and cu/(cu+cd) is noise
-    'lrsi': dict(kind='cnd', params=[('alpha', 0.2, F(0.2, 0.5, 0.1, 0.75))], skip_kinds=('flat',), nmax=200),
+    # dyadic alpha only: with alpha = 0.2 a constant price gives l0 = 0.2 p + 0.8 p = p(1 + 1e-16) in floats, so that
+    # cu/(cu+cd) is 1 where the exact kernel has 0/0 -> 0 (a rounding residue divided by itself, not a model difference)
+    'lrsi': dict(kind='cnd', params=[('alpha', 0.25, F(0.25, 0.5, 0.125, 0.75))], skip_kinds=('flat',), nmax=200),
     'er': dict(kind='src', params=[('period', 5, P(1, 30))], minlen=lambda kw: kw['period'] + 1, nmax=150),
     'mab': dict(kind='src', params=[('fast_period', 10, P(1, 20)), ('slow_period', 50, P(2, 60)), ('devup', 1, F(1, 2, 0.5)), ('devdn', 1, F(1, 2, 1.5))],
                 fields=['upperband', 'middleband', 'lowerband']),
